@@ -554,6 +554,9 @@ func evalModTarget(env *SpecEnv, item string) (cell *Sort, ref *Term, elemT type
 		return sortOf(u.Elem()), v.T, u.Elem(), true
 	case *types.Slice:
 		return ArraySort(SInt, sortOf(u.Elem())), Sel(v.T, 0), nil, true
+	case *types.Map:
+		// a map variable: its one map object
+		return mapSortOf(v.Ty), v.T, nil, true
 	}
 	return nil, nil, nil, false
 }
